@@ -1188,7 +1188,14 @@ func (s *c16Scanner) recogniseSplit(loop ast.Stmt) bool {
 				}
 			case *ast.ForStmt, *ast.RangeStmt: // for each c of W[i:] { s.rest = append(s.rest, []byte(c.Grapheme)...) }
 				it2 := c15IterOf(info, s.defs, st)
-				if it2 == nil || !it2.full {
+				if it2 == nil {
+					// `for j := i; j < len(W); j++ { rest += W[j] }` visits W[i:] front to back as well
+					if s.tailByIndex(st, it) {
+						moved = true
+					}
+					continue
+				}
+				if !it2.full {
 					continue
 				}
 				b2 := c15Flat(it2.body.List)
@@ -1219,6 +1226,73 @@ func (s *c16Scanner) recogniseSplit(loop ast.Stmt) bool {
 	c.ok("C16.a", key, loop.Pos(), "graphemes go to the token until the line is full, all later ones to rest, in order")
 	s.splitOK = true
 	return true
+}
+
+// tailByIndex: st is  for j := i; j < len(W); j++ { s.rest = append(s.rest, <W[j]>...) }  with i the index variable and
+// W the collection of the enclosing split loop `it`: the elements W[i:] are moved to rest in order.
+func (s *c16Scanner) tailByIndex(st ast.Stmt, it *c15Iter) bool {
+	info := s.info
+	fs, ok := st.(*ast.ForStmt)
+	if !ok || fs.Init == nil || fs.Cond == nil || fs.Post == nil || it.idx == nil {
+		return false
+	}
+	ia, ok := fs.Init.(*ast.AssignStmt)
+	if !ok || ia.Tok != token.DEFINE || len(ia.Lhs) != 1 || len(ia.Rhs) != 1 || !s.isObj(ia.Rhs[0], it.idx) {
+		return false
+	}
+	jid, ok := ia.Lhs[0].(*ast.Ident)
+	if !ok {
+		return false
+	}
+	j := info.ObjectOf(jid)
+	if inc, ok := c16Advance(info, fs.Post, j); !ok || inc.canon() != c15Const(1).canon() {
+		return false
+	}
+	if assignsAny(info, fs.Body, map[types.Object]bool{j: true, it.idx: true}) {
+		return false
+	}
+	// the bound: exactly j < len(W)
+	atoms, isConj := c15Conj(c15Formula(info, fs.Cond))
+	if !isConj || len(atoms) != 1 {
+		return false
+	}
+	bound := false
+	ast.Inspect(fs.Cond, func(n ast.Node) bool {
+		cl, ok := n.(*ast.CallExpr)
+		if !ok || len(cl.Args) != 1 {
+			return true
+		}
+		if fid, ok := cl.Fun.(*ast.Ident); ok && fid.Name == "len" {
+			if _, isB := info.Uses[fid].(*types.Builtin); isB && termOf(info, c16StripConv(info, cl.Args[0])).ID == it.xID {
+				want := c15LinOf(info, ia.Lhs[0]).add(c15LinOf(info, cl), -1).plus(1) // j - len(W) + 1 <= 0
+				if atoms[0].canon() == want.canon() {
+					bound = true
+				}
+			}
+		}
+		return true
+	})
+	if !bound {
+		return false
+	}
+	body := c15Flat(fs.Body.List)
+	if len(body) != 1 {
+		return false
+	}
+	as, ok := body[0].(*ast.AssignStmt)
+	if !ok {
+		return false
+	}
+	x := s.appendOf(as, "rest")
+	if x == nil {
+		return false
+	}
+	e := c16StripConv(info, x)
+	if sel, ok := e.(*ast.SelectorExpr); ok && sel.Sel.Name == "Grapheme" {
+		e = sel.X
+	}
+	ix, ok := unparen(s.defs.resolve(e)).(*ast.IndexExpr)
+	return ok && s.isObj(ix.Index, j) && termOf(info, c16StripConv(info, ix.X)).ID == it.xID
 }
 
 // c16NNF pushes negations down to the atoms (neg: the formula is taken negated).
@@ -1511,7 +1585,8 @@ func c16Run(c *Ctx, s *c16Scanner) (sigs map[string]c16Path) {
 
 func runC16(c *Ctx) {
 	// helper extraction and named locals are undone first (c15norm.go): every rule below, and the extra rules, see the normal form
-	c15Normalise(c, []string{"vxfw/text", "vxfw/richtext"}, c15Anchors)
+	// and so are local closures, local structs that only bundle locals, and dead-source copies (c16norm.go)
+	c16Normalise(c)
 	c.Clauses = []string{
 		"C16.a segment accounting on every path of both Scan loops (word/trSpace/rest each once, in order, only trSpace droppable; unconsumed paths add nothing; back edges consume); seg = word ++ trSpace; rest = s.rest[len(seg):]; the long-word split is monotone",
 		"C16.b the hard-break path returns and strips only a trailing line terminator",
